@@ -284,6 +284,9 @@ func (x *Exec) assumeAxioms(p *Path) {
 			if !x.usesAxiomPkg(c) {
 				continue
 			}
+			if x.fc != nil && x.fc.NoAxioms[c.Label] {
+				continue
+			}
 			d := *ctx
 			d.pkg = pkgOfFile(x.e, c.File)
 			s, err := d.EvalBool(c.E)
@@ -1556,7 +1559,7 @@ func (x *Exec) step(p *Path, in ssa.Instruction) {
 		ok := e.fresh("next_ok", "Bool")
 		kv := e.freshVal(p, mm.Key(), "next_key")
 		dom := e.mapDom(p, nil, mt, it.S)
-		val, _ := e.mapLoad(p, nil, mt, it.S, kv.S)
+		val, _ := e.mapLoadX(p, nil, mt, it.S, kv.S, true)
 		e.assumeRange(p, val)
 		ksort := e.sortOf(mm.Key())
 		// ok: k is a current key not yet visited; !ok: every current key has been visited
